@@ -230,6 +230,10 @@ PINNED = {
         "page_obj = self.page_object\nif list(self.system.root_names) == [page_obj.fullName()]:\n    page_url = 'index.html'\nelse:\n    page_url = f'{quote(page_obj.fullName())}.html'\nif page_obj is self:\n    return page_url\nelse:\n    return f'{page_url}#{quote(self.name)}'",
     ('pydoctor.model', 'Documentable.isVisible'):
         'isVisible = self.privacyClass is not PrivacyClass.HIDDEN\nif isVisible and self.parent:\n    isVisible = self.parent.isVisible\nreturn isVisible',
+    ('pydoctor.model', 'Module.privacyClass'):
+        "if self.name == '__main__':\n    return PrivacyClass.PRIVATE\nelse:\n    return super().privacyClass",
+    ('pydoctor.model', 'Documentable.privacyClass'):
+        'return self.system.privacyClass(self)',
     ('pydoctor.model', 'Documentable.isPrivate'):
         'return self.privacyClass is not PrivacyClass.PUBLIC',
     ('pydoctor.model', 'Documentable.fullName'):
@@ -251,6 +255,15 @@ PINNED = {
     ('pydoctor.templatewriter.pages.attributechild', 'AttributeChild.anchorHref'):
         "name = self.shortFunctionAnchor(request, tag)\nreturn f'#{name}'",
 }
+
+
+def check_compact_condition() -> None:
+    """summary.moduleSummary switches to the compact form on exactly the condition Model/Site.compact_listing mirrors"""
+    fn = find_def('pydoctor.templatewriter.summary', 'moduleSummary')
+    tests = [ast.unparse(s.test) for s in ast.walk(fn) if isinstance(s, ast.If)]
+    want = 'len(contents) > 50 and (not any((any(s.submodules()) for s in contents)))'
+    if want not in tests:
+        raise bad('moduleSummary: the compact-form condition changed; expected `%s`, found %s' % (want, tests), fn, 'summary')
 
 
 def check_pinned() -> None:
@@ -297,15 +310,20 @@ def taglink_rest_pinned() -> None:
         raise bad('linker.taglink (outside the visibility guard) changed:\n--- expected\n%s\n--- found\n%s' % (want, got))
 
 
-def marks_private(modname: str, qual: str, test_src: List[str], what: str) -> bool:
-    """Is there an `if <test>:` (test from the closed list) whose body adds the `private` class?"""
+def marks_private(modname: str, qual: str, test_src: List[str], what: str, require_all: bool = False) -> bool:
+    """Is there an `if <test>:` (test from the closed list) whose body adds the `private` class?
+    With require_all every listed test must guard such a body (moduleSummary: the normal and the compact form)."""
     fn = find_def(modname, qual)
     found = False
+    hit = set()
     for s in ast.walk(fn):
         if isinstance(s, ast.If) and ast.unparse(s.test) in test_src:
             body = ast.unparse(ast.Module(body=s.body, type_ignores=[]))
             if 'private' in body:
                 found = True
+                hit.add(ast.unparse(s.test))
+    if require_all:
+        found = found and hit == set(test_src)
     if not found:
         # the marker may only be absent, not replaced by something we do not understand
         for s in ast.walk(fn):
@@ -337,6 +355,7 @@ def search_privacy_field() -> bool:
 # ------------------------------------------------------------------------------- generate
 def generate() -> Dict[str, str]:
     check_pinned()
+    check_compact_condition()
     taglink_rest_pinned()
     P = 'pydoctor.templatewriter.pages'
     U = 'pydoctor.templatewriter.util'
@@ -432,7 +451,7 @@ def generate() -> Dict[str, str]:
          marks_private(P + '.sidebar', 'ContentItem.class_', ['self.child.isPrivate',
                                                               'self.child.privacyClass is model.PrivacyClass.PRIVATE'], 'sidebar item')),
         ('t_modsummary_private', "summary.moduleSummary sets class_='private' when module.isPrivate",
-         marks_private(S, 'moduleSummary', ['module.isPrivate'], 'moduleSummary')),
+         marks_private(S, 'moduleSummary', ['module.isPrivate', 'm.isPrivate'], 'moduleSummary', require_all=True)),
         ('t_search_privacy', "search documents carry 'privacy': ob.privacyClass.name", search_privacy_field()),
         ('t_row_uses_css', 'table.TableRow.class_ is util.css_class(self.child)',
          uses_css_class(P + '.table', 'TableRow.class_', 'self.child')),
